@@ -310,7 +310,23 @@ func (c comparison) execute(_ *Ctx, params []Value) (Value, error) {
 	}
 }
 
+// comparableValue reports whether v can be compared with ==,
+// comparing two lists (or two sets) would panic at run time
+func comparableValue(v Value) bool {
+	switch v.(type) {
+	case []int64, []string, map[int64]struct{}, map[string]struct{}:
+		return false
+	}
+	return true
+}
+
 func comparisonEquals(_ *Ctx, params []Value) (Value, error) {
+	for _, p := range params {
+		if !comparableValue(p) {
+			return nil, ParamTypeError(modeNames[equals], "comparable value", p)
+		}
+	}
+
 	if len(params) == 2 {
 		return params[0] == params[1], nil
 	}
@@ -331,6 +347,12 @@ func comparisonEquals(_ *Ctx, params []Value) (Value, error) {
 func comparisonNotEquals(_ *Ctx, params []Value) (Value, error) {
 	if len(params) != 2 {
 		return nil, errCnt2(notEquals, params)
+	}
+
+	for _, p := range params {
+		if !comparableValue(p) {
+			return nil, ParamTypeError(modeNames[notEquals], "comparable value", p)
+		}
 	}
 
 	return params[0] != params[1], nil
